@@ -154,6 +154,11 @@ def jobs(pid, tier):
                      need_outcomes=['done:ite']))
         J.append(Job('mdd_ops', dict(K=1 if q else 2, ops=['apply'], arities=[[2, 2], [3, 2]]),
                      need_outcomes=['done:apply']))
+        J.append(Job('mdd_conv', dict(N=3, L=2, K=2), need_outcomes=['converted']))
+        J.append(Job('mdd_conv', dict(N=2, L=3, K=2), need_outcomes=['converted']))
+        if not q:
+            J.append(Job('mdd_conv', dict(N=3, L=3, K=2), need_outcomes=['converted']))
+            J.append(Job('mdd_conv', dict(N=4, L=2, K=3), need_outcomes=['converted']))
     if pid == 'C16':
         J.append(Job('dddmp', dict(M=2, nroots=1), need_outcomes=['loaded']))
         J.append(Job('dddmp', dict(M=3 if q else 4, nroots=2, headers=['v0gap', 'v3'] if q else ['v0', 'v0gap', 'v1', 'v3']),
